@@ -13,7 +13,7 @@ import (
 )
 
 // C14 — concurrent queries.  Case line: <storage> TAB <requests> TAB <goroutines> TAB <file 0|1>.
-// Three passes per case, each on fresh engines with a cold cache:
+// Five passes per case (4: warm-cache hammer, 5: cache lock busy at every insert), each on fresh engines with a cold cache:
 //   1. sequential reference answers (no instrumentation);
 //   2. single-goroutine probe pass: at every shared access the hook probes the real lock with TryLock/TryRLock;
 //      with one goroutine nobody else can hold the lock, so a missing Lock() is detected deterministically;
@@ -31,6 +31,11 @@ type c14Monitor struct {
 	shared int
 	yield  bool
 	tick   int
+	// contended mode: at every cache miss the cache lock is taken in read mode on behalf of "another goroutine" and
+	// released a little later from a different goroutine, so that the insert that follows finds the lock BUSY
+	contend bool
+	cacheMu *sync.RWMutex
+	held    int
 }
 
 func newC14Monitor(yield bool) *c14Monitor {
@@ -50,6 +55,11 @@ func (m *c14Monitor) handle(kind int, obj any) {
 	switch kind {
 	case filterlist.VerifCacheRead:
 		mu := obj.(*sync.RWMutex)
+		if m.contend {
+			m.cacheMu = mu // only the single query goroutine of the contended pass writes and reads this field
+			m.note(kind, true)
+			break
+		}
 		if mu.TryLock() {
 			// nobody holds the lock in any mode, not even the reader itself
 			mu.Unlock()
@@ -59,6 +69,10 @@ func (m *c14Monitor) handle(kind int, obj any) {
 		}
 	case filterlist.VerifCacheWrite:
 		mu := obj.(*sync.RWMutex)
+		if m.contend {
+			m.note(kind, true)
+			break
+		}
 		if mu.TryRLock() {
 			// no writer holds the lock
 			mu.RUnlock()
@@ -90,6 +104,15 @@ func (m *c14Monitor) handle(kind int, obj any) {
 		m.mu.Unlock()
 	case filterlist.VerifCacheMiss:
 		m.note(kind, true)
+		if m.contend && m.cacheMu != nil {
+			mu := m.cacheMu
+			mu.RLock()
+			m.held++
+			go func() {
+				time.Sleep(150 * time.Microsecond)
+				mu.RUnlock()
+			}()
+		}
 	}
 	if m.yield {
 		m.mu.Lock()
@@ -309,6 +332,45 @@ func init() {
 				diff += int(hammerDiff)
 				flags += fmt.Sprintf("!CONCURRENT-ANSWER-DIFFERS-ON-WARM-CACHE:%d, first req=%d", hammerDiff, hammerFirst)
 			}
+			// pass 5: one query goroutine on a cold cache while the cache lock is BUSY at every insert (held in read mode by
+			// "another goroutine" from the cache miss on, released 150 microseconds later): a query must wait for the lock,
+			// not work around it — deterministic, no scheduling luck involved
+			mon5 := newC14Monitor(false)
+			mon5.contend = true
+			filterlist.VerifSetHook(mon5.handle)
+			e5 := newHistEngines(ls, fileBacked)
+			contDiff, contFirst := 0, -1
+			done5 := make(chan struct{})
+			go func() {
+				defer close(done5)
+				for i, rq := range reqs {
+					var g string
+					var c int
+					if p, _ := protect(func() {
+						var rr *histResult
+						g, rr, _ = e5.runOp(rq)
+						c = rr.count()
+					}); p || g != want[i] || c != wantN[i] {
+						contDiff++
+						if contFirst < 0 {
+							contFirst = i
+						}
+					}
+				}
+			}()
+			select {
+			case <-done5:
+			case <-time.After(60 * time.Second):
+				flags += "!QUERIES-BLOCK-FOREVER-WHEN-THE-CACHE-LOCK-IS-BUSY"
+			}
+			filterlist.VerifSetHook(nil)
+			time.Sleep(time.Millisecond) // let the last delayed RUnlock run before the engines go away
+			e5.cleanup()
+			if contDiff > 0 {
+				diff += contDiff
+				flags += fmt.Sprintf("!ANSWER-DIFFERS-WHEN-THE-CACHE-LOCK-IS-BUSY:%d of %d, first req=%d", contDiff, len(reqs), contFirst)
+			}
+			st.Add("inserts_with_busy_lock", mon5.held)
 			for _, k := range c14Kinds {
 				if mon3.bad[k.kind] > 0 {
 					flags += fmt.Sprintf("!LOCK-NOT-HELD-CONCURRENT:%s x%d", k.name, mon3.bad[k.kind])
